@@ -54,13 +54,28 @@ def opt(s):
     return st.one_of(st.none(), s)
 
 
+def _steer_name(draw, name, max_total):
+    if draw(st.integers(0, 3)) != 0:
+        return name
+    cur = sum(len(S.comp_bytes(c)) for c in name)
+    targets = [253, 253 - 34, 240, 255] + ([65536, 65536 - 34] if max_total > 66000 else [])
+    want = draw(st.sampled_from(targets)) + draw(st.integers(-4, 4))
+    pad = want - cur - 2
+    if pad >= 253:
+        pad -= 2
+    if pad < 0 or pad > 66000:
+        return name
+    return name + [[8, (b'n' * pad).hex()]]
+
+
 @st.composite
 def data_case(draw, signer_kinds=None, max_total=70000):
     meta = draw(st.one_of(
         st.none(),
         st.fixed_dictionaries({'content_type': opt(_U64), 'freshness_period': opt(_U64),
                                'final_block_id': opt(S.component(12).map(lambda c: S.comp_bytes(c).hex()))})))
-    return {'kind': 'data', 'name': draw(S.name(0, 6, allow_digest_types=True)), 'name_rep': draw(st.integers(0, 6)),
+    return {'kind': 'data', 'name': _steer_name(draw, draw(S.name(0, 6, allow_digest_types=True)), max_total),
+            'name_rep': draw(st.integers(0, 6)),
             'meta': meta, 'payload': draw(payload_spec(max_total)),
             'signer': draw(K.signer_spec(signer_kinds))}
 
@@ -73,6 +88,7 @@ def interest_case(draw, signer_kinds=None, max_total=70000):
     # implicit digest components (type 1) are legal anywhere; params digest (type 2) only as the placeholder
     if draw(st.integers(0, 5)) == 0:
         name.insert(draw(st.integers(0, len(name))), [1, draw(st.binary(min_size=32, max_size=32)).hex()])
+    name = _steer_name(draw, name, max_total)
     need_digest = payload is not None or signer['kind'] != 'none'
     digest_pos = None
     if need_digest and draw(st.integers(0, 2)) == 0:
